@@ -231,6 +231,7 @@ namespace optree {
         .kind = root.kind,
         .arity = root.arity,
         .node_data = root.node_data,
+        .node_entries = root.node_entries,
         .custom = root.custom,
         .num_leaves = 0,
         .num_nodes = 1,
